@@ -1,5 +1,7 @@
 import PeliteModel.Driver.Pure
 import PeliteModel.Driver.Image
+import PeliteModel.Driver.Typed
+import PeliteModel.Driver.Convert
 -- IMPORT-MARKER (add `import PeliteModel.Driver.<M>` above this line)
 /-! `model`: the line-protocol driver.  One answer line per operation line; the part after ` ## `
 is the executable specification's answer and whether the input meets the theorem's hypotheses. -/
@@ -8,12 +10,24 @@ open Pelite Pelite.Driver
 def handlers : List Handler := [
   dispatchPure,
   dispatchImage
+  , dispatchTyped
+  , dispatchConvert
   -- HANDLER-MARKER (add `, dispatch<M>` above this line)
   ]
 
 def step (st : St) (line : String) : St × String :=
   match line.splitOn " " with
   | ["img", al, _flush, hx] => ({ st with img := some ⟨Proto.unhex hx, Proto.num al⟩ }, "ok")
+  | [fam, k] =>
+    if fam == "img_to_view" || fam == "img_to_file" then
+      -- replace the current image by the conversion result (placed 16-aligned)
+      match convert st.img fam k with
+      | (some out, ans) => ({ st with img := some ⟨out, 0⟩ }, ans)
+      | (none, ans) => (st, ans)
+    else
+    match handlers.findSome? (fun h => h st fam [k]) with
+    | some ans => (st, ans)
+    | none => (st, "bad-op")
   | fam :: a =>
     match handlers.findSome? (fun h => h st fam a) with
     | some ans => (st, ans)
